@@ -23,7 +23,8 @@ CORR_OP = {"sigOtherKey": "sig_other_key", "sigFlip": "sig_flip", "msgFlipKey": 
            "msgFlipOther": "msg_flip_other", "keySubst": "key_subst", "tweakFlip": "tweak_flip",
            "tweakRemove": "tweak_remove", "tweakAdd": "tweak_add"}
 ORDER = ["key_subst", "sig_other_key", "tweak_add", "tweak_remove", "tweak_flip", "msg_flip_key",
-         "msg_flip_other", "msg_flip", "sig_flip", "sig_swap", "reparent", "wrong_root"]
+         "msg_flip_other", "msg_flip", "sig_flip", "sig_swap", "reparent", "wrong_root", "respell"]
+HEXFIELDS = ("message", "signature", "tweak")
 FLIPS = ("sig_flip", "msg_flip_key", "msg_flip_other", "msg_flip", "tweak_flip")
 LOCAL_FILL = ["sig_flip", "msg_flip", "sig_other_key", "tweak_any"]
 
@@ -32,7 +33,30 @@ def _dict(x):
     return x if isinstance(x, dict) else {}
 
 
-def plans_from_behaviour(b, rng, positions=("rand",), expand_shapes=True):
+def _respell(rng, elements, members, decided=False, tweak_touched=False):
+    """One hex field of one element (on or off any path) written in a seeded member of `members`."""
+    i = rng.randrange(len(elements))
+    fields = ["message", "signature"] + (["tweak"] if elements[i].get("tweak") and not tweak_touched else [])
+    return ["respell", i, {"field": rng.choice(fields), "member": rng.choice(list(members)),
+                           "decided": decided}]
+
+
+def spelling_plans(rng):
+    """Every member of every spelling class on every hex field of every element of a Ledger-like chain
+    (one deviation per certificate), with targets above, at and below the respelt element."""
+    seed = rng.randrange(1 << 62)
+    plans = []
+    for i, e in enumerate(LEDGER_LIKE):
+        for f in HEXFIELDS:
+            if f == "tweak" and not e["tweak"]:
+                continue
+            for m in certv1.SPELLINGS:
+                plans.append({"seed": seed, "targets": ["signer", "device", "ui"], "elements": LEDGER_LIKE,
+                              "corrs": [["respell", i, {"field": f, "member": m}]], "src": "spelling"})
+    return plans
+
+
+def plans_from_behaviour(b, rng, positions=("rand",), expand_shapes=True, spell_rate=0.3):
     """Concretise one behaviour of GenCertChain.  What the model decided is honoured exactly; what
     it left open (elements / links never read) is filled with seeded random content, corrupted or
     not.  Returns one plan per requested flip position class when the behaviour contains a
@@ -92,6 +116,17 @@ def plans_from_behaviour(b, rng, positions=("rand",), expand_shapes=True):
         elements.append(e)
     if b["rootkey"] == "k_x":
         corrs.append(["wrong_root", None, {}])
+    if not elements:
+        # (a refused spelling needs a field to sit in; nothing about this element was ever read)
+        n = rng.choice([x for x in NAMES if by.get(x) != "absent"])
+        elements.append({"name": n, "signed_by": "root", "compressed": False, "leafmsg": 0, "shape": "canon",
+                         "tweak": True})
+    tt = any(c[0] in ("tweak_remove", "tweak_add") for c in corrs)
+    if b.get("spell") == "refused":
+        corrs.append(_respell(rng, elements, certv1.SPELL_REFUSED, decided=True, tweak_touched=tt))
+    elif rng.random() < spell_rate:
+        # any accepted spelling of the same bytes must change nothing
+        corrs.append(_respell(rng, elements, certv1.SPELL_ACCEPTED[1:], tweak_touched=tt))
     corrs.sort(key=lambda c: ORDER.index(c[0]))
     targets = [rng.choice(GHOST_TARGETS) if t == "ghost" else t for t in b["targets"]]
     plans = []
@@ -130,7 +165,7 @@ def random_plan(rng):
     elements = [elements[i] for i in order]
     corrs = []
     for _ in range(rng.choice([0, 1, 1, 1, 2, 2, 3])):
-        kind = rng.choice(ORDER)
+        kind = rng.choice(ORDER[:-1])
         i = rng.randrange(k)
         if kind == "sig_swap":
             if k < 2:
@@ -143,6 +178,10 @@ def random_plan(rng):
             corrs.append([kind, None, {}])
         else:
             corrs.append([kind, i, {}])
+    if rng.random() < 0.35:
+        corrs.append(_respell(rng, elements, certv1.SPELLINGS[1:] if rng.random() < 0.25
+                              else certv1.SPELL_ACCEPTED[1:],
+                              tweak_touched=any(c[0] in ("tweak_remove", "tweak_add") for c in corrs)))
     corrs.sort(key=lambda c: ORDER.index(c[0]))
     nt = rng.choice([0, 1, 1, 2, 2, 3])
     targets = [rng.choice(names + names + [rng.choice(GHOST_TARGETS)]) for _ in range(nt)]
@@ -271,7 +310,7 @@ def execute(job):
 def trace_of(ch, obs):
     els = [{k: v for k, v in s.to_dict().items() if k != "tweak_hex"} for s in ch.sym]
     tw = {s.name: s.tweak_hex for s in ch.sym}
-    return {"rootkey": ch.root_sym, "targets": list(ch.cert["targets"]), "els": els,
+    return {"rootkey": ch.root_sym, "targets": list(ch.cert["targets"]), "els": els, "spell": ch.spell,
             "outcome": obs["outcome"], "res": [{k: r[k] for k in ("target", "valid", "name", "value")}
                                                for r in obs["res"]],
             "err": obs["err"], "skipped": ch.skipped,
